@@ -222,6 +222,10 @@ class ProofStatus:
         self.log = ""
         self.files = []
         self.theorems = []
+        self.coqchk = None
+
+
+TIER = "quick"      # set by check.py
 
 
 def check_proofs(build, prop_file):
@@ -250,6 +254,18 @@ def check_proofs(build, prop_file):
         bad = [f for f in ps.files if f in failed]
         ps.log = "dependencies failed to compile: " + ", ".join(bad) + "\n" + _errors_of(build.make_log)
         ps.ok = False
+    if ps.ok and TIER == "thorough":
+        # independent re-check of the compiled property file and everything it depends on
+        mod = "RP2V.Properties." + prop_file[:-2]
+        try:
+            rc, out = _run(["coqchk", "-o", "-silent", "-R", "theories", "RP2V", mod], cwd=COQ, timeout=1800)
+        except subprocess.TimeoutExpired:
+            rc, out = 1, "coqchk timed out"
+        summary = out[out.find("CONTEXT SUMMARY"):] if "CONTEXT SUMMARY" in out else out[-600:]
+        ps.coqchk = " ".join(summary.split())[:700]
+        if rc != 0:
+            ps.ok = False
+            ps.log += "\ncoqchk failed:\n" + out[-1500:]
     if not ps.ok:
         ps.discharged = min(ps.discharged, ps.obligations - 1) if ps.obligations else 0
     src = open(os.path.join(COQ, rel), encoding="utf-8").read()
@@ -435,6 +451,8 @@ class Outcome:
             tb.append("Print Assumptions of the property theorems (" + ", ".join(proofs.theorems) + "): "
                       + ("; ".join(sorted(set(proofs.assumptions))) if proofs.assumptions else "not available (proof did not compile)"))
             cov.setdefault("trusted_base", tb)
+            if proofs.coqchk:
+                tb.append("coqchk -o on the property module (thorough tier): " + proofs.coqchk)
             cov["proof_files"] = proofs.files
             cov["proofs_compiled"] = proofs.ok
         cov["translator"] = build.translator if build else {}
